@@ -25,7 +25,7 @@ package main
 //     in the negated patterns {!a/b, !/a/a, !b, !**/b, !A}; quick a fixed list
 //     of positive pairs, thorough all ordered positive pairs and (n, p) pairs
 //     (the family: single patterns and the pairs (p, !a/b), (p, !b))
-//   modes: --include, --exclude, --iinclude, --iexclude (thorough also the first
+//   modes: --include, --exclude, --iinclude, --iexclude, and for sets of two patterns the first
 //     pattern as --include/--exclude and the second as --iinclude/--iexclude;
 //     the family: --include, --exclude, --iexclude)
 //
@@ -477,7 +477,7 @@ func verifC27PatternSets(thorough, family bool) [][]string {
 			}
 		}
 	} else {
-		for _, pq := range [][2]string{{"/a/b", "b"}, {"a*", "/b/a"}, {"**/b", "A"}, {"/a/**", "ab"}, {"a/b", "/*/b"}, {"?b", "/a"}, {"A", "a"}, {"*", "a"}, {"/b/a", "/a/b"}} {
+		for _, pq := range [][2]string{{"/a/b", "b"}, {"a*", "/b/a"}, {"**/b", "A"}, {"/a/**", "ab"}, {"a/b", "/*/b"}, {"?b", "/a"}, {"A", "a"}, {"*", "a"}, {"/b/a", "/a/b"}, {"b", "/a/b"}, {"ab", "/a/a"}} {
 			sets = append(sets, []string{pq[0], pq[1]})
 		}
 	}
@@ -491,7 +491,8 @@ func verifC27ModeNames(thorough, family bool) []string {
 	if thorough {
 		return []string{"include", "exclude", "iinclude", "iexclude", "include+iinclude", "exclude+iexclude"}
 	}
-	return []string{"include", "exclude", "iinclude", "iexclude"}
+	// quick: the mixed modes too (they only differ from the plain ones for sets of two patterns, see the caller)
+	return []string{"include", "exclude", "iinclude", "iexclude", "include+iinclude", "exclude+iexclude"}
 }
 
 // ---- reference model
@@ -626,6 +627,9 @@ func TestVerif_C27(t *testing.T) {
 				break
 			}
 			for _, mname := range verifC27ModeNames(r.Thorough(), tree.Family) {
+				if strings.Contains(mname, "+") && len(ps) < 2 {
+					continue // identical to the plain mode
+				}
 				mode := modes[mname]
 				lists := mode.lists(ps)
 				kept, matching := verifC27Kept(entries, lists, mode.exclude)
